@@ -4,7 +4,7 @@
 // REAL 'me', p2p and group topics, sessions and store mappers above memverif.  One
 // client request at a time through Session.dispatchRaw, sound quiescence after each
 // (vWaitQuiet of zz_verif_topic_test.go), then a dump of: the {pres} frames every
-// session received, the real perSubs tables of the loaded 'me' topics, the real
+// session received ({info} frames as what = i:<what>), the real perSubs tables of the loaded 'me' topics, the real
 // perUser[..].online counters and attached-session sets of every loaded topic, and
 // the stored subscription rows.  The model runner (harness/runner/r_pres.ml) prints
 // the same canonical blocks for the same scenario.
@@ -314,6 +314,31 @@ func (sc *pScn) op(w []string) {
 			break
 		}
 		sc.send(si, `{"pub":{"id":"`+id+`","topic":"`+cli+`","content":"x"}}`)
+	case "note": // note <sid> <ref> <kp|read|recv> <seq>: {note}; never answered
+		si := at(0)
+		cli, hub := sc.topicRef(sc.sessUser[si], a[1])
+		// a "recv" of a session that is not attached is routed by the hub (session.go:1286-1301): sent all the same
+		if !sc.attached(si, hub) && a[2] != "recv" {
+			skipped = true
+			break
+		}
+		seq := ""
+		if a[2] != "kp" {
+			seq = `,"seq":` + a[3]
+		}
+		sc.send(si, `{"note":{"topic":"`+cli+`","what":"`+a[2]+`"`+seq+`}}`)
+	case "delmsg": // delmsg <sid> <ref> <hard>: {del what=msg} of message 1
+		si := at(0)
+		cli, hub := sc.topicRef(sc.sessUser[si], a[1])
+		if !sc.attached(si, hub) {
+			skipped = true
+			break
+		}
+		hard := ""
+		if len(a) > 2 && a[2] == "1" {
+			hard = `,"hard":true`
+		}
+		sc.send(si, `{"del":{"id":"`+id+`","topic":"`+cli+`","what":"msg","delseq":[{"low":1}]`+hard+`}}`)
 	case "unload": // unload <abs topic>: the idle timer of that topic fires
 		if !sc.unload(sc.topicAbs(a[0])) {
 			skipped = true
@@ -374,6 +399,13 @@ func (sc *pScn) dump() {
 			switch {
 			case m.Pres != nil:
 				fl = append(fl, fmt.Sprintf("F %d %s %s %s", i, sc.tok(m.Pres.Topic), sc.tok(m.Pres.Src), m.Pres.What))
+			case m.Info != nil:
+				// {info}: on 'me' Src names the topic it comes from; in the topic itself Src is empty
+				src := m.Info.Src
+				if src == "" {
+					src = m.Info.Topic
+				}
+				fl = append(fl, fmt.Sprintf("F %d %s %s i:%s", i, sc.tok(m.Info.Topic), sc.tok(src), m.Info.What))
 			case m.Ctrl != nil && m.Ctrl.Id != "":
 				fl = append(fl, fmt.Sprintf("C %d %d", i, m.Ctrl.Code))
 			case m.Ctrl != nil:
